@@ -656,6 +656,8 @@ func workload(c *rt.Ctx) []Case {
 	pkn = append(pkn, notNullSameDefaultCases(pool)...)
 	pkn = append(pkn, genParamTypeCases()...)
 	pkn = append(pkn, uniqueConstraintCases()...)
+	pkn = append(pkn, literalCaseCases()...)
+	pkn = append(pkn, sqlitePrefixCases()...)
 	for _, cs := range pkn {
 		add(cs)
 	}
@@ -699,7 +701,7 @@ func workload(c *rt.Ctx) []Case {
 			k++
 		}
 		for i, cs := range pkn {
-			if i%6 == 0 || (cs.Src == "fk-pairing" || cs.Src == "null-default" || cs.Src == "notnull-same-default" || cs.Src == "gen-param-type" || cs.Src == "unique-constraint") && i%3 == 0 {
+			if i%6 == 0 || (cs.Src == "fk-pairing" || cs.Src == "null-default" || cs.Src == "notnull-same-default" || cs.Src == "gen-param-type" || cs.Src == "unique-constraint" || cs.Src == "literal-case" || cs.Src == "sqlite-prefix") && i%3 == 0 {
 				cs.CLI = true
 				cs.Name = "cli:" + cs.Name
 				add(cs)
@@ -1107,5 +1109,102 @@ func uniqueConstraintCases() []Case {
 			out = append(out, Case{Pair: sqlm.Pair{A: cur, B: d.s, Mode: st.Name}, Name: "unique-constraint:" + d.name + "/" + st.Name, Src: "unique-constraint", Edits: []string{"idx.unique-constraint"}})
 		}
 	}
+	return out
+}
+
+// literalCaseCases: expressions change ONLY in the letter case of a string literal — the predicate of
+// a partial (unique) index, a check, a generated expression, an expression index part, a string
+// default. Identifiers and keywords are case-insensitive in SQL, string literals are not: `kind = 'A'`
+// and `kind = 'a'` admit different rows. Judged by the facts (stored text; literals keep their case in
+// the normal form).
+func literalCaseCases() []Case {
+	n := func(name, typ string) sqlm.Col { return sqlm.Col{Name: name, Type: typ, Null: true} }
+	mk := func(lit1, lit2 string, idxOnly bool) sqlm.Schema {
+		t := sqlm.Table{Name: "lc", Cols: []sqlm.Col{{Name: "id", Type: "integer"}, n("kind", "text"), n("v", "text")}, PK: []string{"id"},
+			Idx: []sqlm.Idx{
+				{Name: "lc_v_kind", Unique: true, Parts: []sqlm.Part{{Col: "v"}}, Where: "kind = '" + lit1 + "'", Refs: []string{"kind"}},
+				{Name: "lc_id_in", Parts: []sqlm.Part{{Col: "id", Desc: true}}, Where: "kind IN ('" + lit2 + "', 'b')", Refs: []string{"kind"}},
+			}}
+		if !idxOnly {
+			t.Cols[1].Default = &sqlm.Default{Kind: "str", V: lit1 + "bc"}
+			t.Checks = []sqlm.Check{{Name: "lc_kind", Expr: "kind <> '" + lit1 + "x' OR kind IS NULL", Refs: []string{"kind"}}}
+			t.Cols = append(t.Cols, sqlm.Col{Name: "g", Type: "text", Null: true, Gen: &sqlm.Gen{Expr: "kind || '" + lit2 + "z'", Refs: []string{"kind"}}})
+			t.Idx = append(t.Idx, sqlm.Idx{Name: "lc_expr", Parts: []sqlm.Part{{Expr: "v || '" + lit1 + "'"}}, Refs: []string{"v"}})
+		}
+		return sqlm.Schema{Tables: []sqlm.Table{t}}
+	}
+	var out []Case
+	modes := []string{"atlas"}
+	for _, st := range sqlm.Styles {
+		modes = append(modes, st.Name)
+	}
+	k := 0
+	for _, idxOnly := range []bool{true, false} {
+		for _, p := range [][4]string{{"A", "a", "a", "a"}, {"a", "a", "A", "a"}, {"A", "a", "a", "A"}, {"a", "A", "A", "A"}, {"a", "A", "a", "a"}} {
+			a, b := mk(p[0], p[1], idxOnly), mk(p[2], p[3], idxOnly)
+			if a.Validate() != nil || b.Validate() != nil {
+				panic("c01 literalCaseCases: invalid")
+			}
+			for r := 0; r < 2; r++ {
+				out = append(out, Case{Pair: sqlm.Pair{A: a, B: b, Mode: modes[k%len(modes)]}, Name: fmt.Sprintf("literal-case:%s%s->%s%s idx-only=%v", p[0], p[1], p[2], p[3], idxOnly), Src: "literal-case", Edits: []string{"expr.literal-case"}})
+				k++
+			}
+		}
+	}
+	return out
+}
+
+// sqlitePrefixCases: user tables whose names merely start with "sqlite" / "libsql" (not the reserved
+// "sqlite_" prefix): created from empty, re-applied from raw databases, altered in place, rebuilt, with a
+// foreign key between them, empty and populated.
+func sqlitePrefixCases() []Case {
+	n := func(name, typ string) sqlm.Col { return sqlm.Col{Name: name, Type: typ, Null: true} }
+	mkT := func(name string) sqlm.Table {
+		return sqlm.Table{Name: name, Cols: []sqlm.Col{{Name: "id", Type: "integer"}, n("k", "text"), n("v", "real")}, PK: []string{"id"},
+			Idx: []sqlm.Idx{{Name: name + "_k", Parts: []sqlm.Part{{Col: "k"}}}}}
+	}
+	names := []string{"sqlitecache", "sqlite3_backups", "libsqlsync", "libsql2_meta", "sqlitex"}
+	var base sqlm.Schema
+	for _, nm := range names {
+		base.Tables = append(base.Tables, mkT(nm))
+	}
+	base.Tables[1].Cols = append(base.Tables[1].Cols, n("cache_id", "integer"))
+	base.Tables[1].FKs = []sqlm.FK{{Name: "backups_cache", Cols: []string{"cache_id"}, RefTable: "sqlitecache", RefCols: []string{"id"}, OnDelete: "CASCADE"}}
+	if err := base.Validate(); err != nil {
+		panic("c01 sqlitePrefixCases: " + err.Error())
+	}
+	var out []Case
+	out = append(out, Case{Pair: sqlm.Pair{B: base, Mode: "atlas"}, Name: "sqlite-prefix:create", Src: "sqlite-prefix"})
+	for _, st := range sqlm.Styles {
+		out = append(out, Case{Pair: sqlm.Pair{A: base, B: base, Mode: st.Name}, Name: "sqlite-prefix:raw-identity/" + st.Name, Src: "sqlite-prefix"})
+	}
+	out = append(out, Case{Pair: sqlm.Pair{A: base, B: base, Mode: "atlas"}, Name: "sqlite-prefix:re-apply", Src: "sqlite-prefix"})
+	modes := []string{"atlas", sqlm.Styles[0].Name, sqlm.Styles[2].Name}
+	k := 0
+	for ti := range base.Tables {
+		for v := 0; v < 3; v++ {
+			b := base.Clone()
+			t := &b.Tables[ti]
+			edit := ""
+			switch v {
+			case 0:
+				edit = "col.add.null"
+				t.Cols = append(t.Cols, n("extra", "text"))
+			case 1:
+				edit = "check.add.named"
+				t.Checks = append(t.Checks, sqlm.Check{Name: t.Name + "_ck", Expr: "id > 0", Refs: []string{"id"}})
+			default:
+				edit = "idx.add.plain"
+				t.Idx = append(t.Idx, sqlm.Idx{Name: t.Name + "_v", Parts: []sqlm.Part{{Col: "v"}}})
+			}
+			out = append(out, Case{Pair: sqlm.Pair{A: base, B: b, Mode: modes[k%len(modes)], Rows: 3 * (k % 2)}, Name: fmt.Sprintf("sqlite-prefix:%s/%s", t.Name, edit), Src: "sqlite-prefix", Edits: []string{edit}})
+			k++
+		}
+	}
+	// one table dropped, one added
+	d := base.Clone()
+	d.DropTable("sqlitex")
+	out = append(out, Case{Pair: sqlm.Pair{A: base, B: d, Mode: "atlas"}, Name: "sqlite-prefix:drop sqlitex", Src: "sqlite-prefix"},
+		Case{Pair: sqlm.Pair{A: d, B: base, Mode: sqlm.Styles[1].Name}, Name: "sqlite-prefix:add sqlitex", Src: "sqlite-prefix"})
 	return out
 }
